@@ -16,6 +16,7 @@ From PowHsm Require Import Proofs.SrcEquivHeartbeatM.
 From PowHsm Require Import Proofs.SrcEquivParamsProtoM.
 From PowHsm Require Import Proofs.SrcEquivGateM.
 From PowHsm Require Import Proofs.SrcLiftGate.
+From PowHsm Require Import Proofs.SrcEquivGateV1M.
 Open Scope N_scope.
 
 (* closed check on the generated except-ladders: every v5 handler maps a link error to (flag set, device error) and a timeout to (flag untouched, device error) *)
@@ -301,5 +302,16 @@ Theorem C11_source_whole_request_path_is_model :
          srcm_HSM2ProtocolLedger____internal_handle_request fuel cm init self (of_json request) w =
          mres of_json (handle_request keccak kind V5 request w).
 Proof. exact (@srcm_handle_request_v5_ok). Qed.
+
+(* the whole legacy (version 1) request path of the source = the model's handle_request in mode V1 on every request and world *)
+Theorem C11_source_whole_request_path_v1_is_model :
+  forall (keccak : bytes -> bytes) (kind : dongle_kind) (init : pm pv)
+           (cm : string -> pv -> list pv -> pr pv) (self : pv) (request : json) 
+           (w : world),
+         init_ok kind init ->
+         path_oracle_ok_v1 cm ->
+         srcm_HSM1ProtocolLedger____internal_handle_request cm init self (of_json request) w =
+         mres of_json (handle_request keccak kind V1 request w).
+Proof. exact (@srcm_handle_request_v1_ok). Qed.
 
 Example C11_nonvacuous : True. Proof. exact I. Qed. (* concrete three-request lifetimes closed by vm_compute in Proofs/C11.v, Module Examples *)
